@@ -42,6 +42,7 @@ def _src_files():
     for name in sorted(os.listdir(NATIVE)):
         out.append(os.path.join(NATIVE, name))
     out.append(os.path.join(REPO, "CMakeLists.txt"))
+    out.append(os.path.abspath(__file__))  # the build recipe itself
     return out
 
 
@@ -138,6 +139,11 @@ def _build(dest):
         ["gcc", "-O2", "-g", "-shared", "-fPIC", "-Wall",
          os.path.join(NATIVE, "fsshim.c"), "-o", os.path.join(tmp, "fsshim.so"), "-ldl"],
         "shim build",
+    )
+    _run(
+        ["gcc", "-O2", "-g", "-shared", "-fPIC", "-Wall",
+         os.path.join(NATIVE, "gilprobe.c"), "-o", os.path.join(tmp, "gilprobe.so"), "-ldl"],
+        "lock probe build",
     )
     os.rename(tmp, dest)
 
